@@ -1444,6 +1444,12 @@ func (e *verifEnv) scenarios(hook func(op *verifOp, res verifResult, before, aft
 			if op.labels == "" {
 				op.labels = "-"
 			}
+			if e.sn == nil && op.name != "restart" {
+				// a scripted start failed against the script's expectation (already reported by the
+				// restart oracle): the remaining calls of the script have no snapshotter to run on
+				e.out.Count("scripted-call-skipped")
+				continue
+			}
 			res, before, after := e.exec(op)
 			if op.name == "close" {
 				e.sn = nil
